@@ -33,6 +33,8 @@ impl Zones {
     pub fn resolve(&self, name: &DomainName, qtype: QueryType) -> (r: Option<(&Zone, ZoneResult)>)
         ensures r is Some <==> zones_resolve(*self, *name, qtype) is Some,
                 r is Some ==> *r->Some_0.0 == zones_resolve(*self, *name, qtype)->Some_0.0 && r->Some_0.1 == zones_resolve(*self, *name, qtype)->Some_0.1,
+                // a CNAME result carries the CNAME record of the query name and that record's target (zone_lookup: lemma_cname_result_consistent)
+                r is Some && r->Some_0.1 is CNAME ==> r->Some_0.1->rr.rtype_with_data is CNAME && r->Some_0.1->rr.rtype_with_data->CNAME_cname == r->Some_0.1->cname && r->Some_0.1->rr.name == *name,
     { unimplemented!() }
 }
 impl Zone {
@@ -70,6 +72,7 @@ spec fn same_env<CT>(a: &Context<'_, CT>, b: &Context<'_, CT>) -> bool { a.zones
 pub open spec fn key_of(rr: ResourceRecord) -> (DomainName, RecordType) { (rr.name, spec_rtype_of(rr.rtype_with_data)) }
 // prioritising_merge: the first list, then the records of the second whose (name, type) does not occur in the first, in order
 pub open spec fn has_key(s: Seq<ResourceRecord>, k: (DomainName, RecordType)) -> bool { exists|i: int| 0 <= i < s.len() && key_of(#[trigger] s[i]) == k }
+#[verifier::opaque]
 pub open spec fn merged(a: Seq<ResourceRecord>, b: Seq<ResourceRecord>) -> Seq<ResourceRecord> { a + b.filter(|rr: ResourceRecord| !has_key(a, key_of(rr))) }
 pub open spec fn nsdnames(ns: Seq<ResourceRecord>) -> Seq<DomainName> {
     ns.filter(|rr: ResourceRecord| rr.rtype_with_data is NS).map_values(|rr: ResourceRecord| rr.rtype_with_data->NS_nsdname)
@@ -124,7 +127,7 @@ SPECS = {
                   "entry": """broadcast use vstd::std_specs::hash::group_hash_axioms, axiom_key_pair_model; let ghost idx = it2__.index@ as int;
 proof { lemma_merged_step(old(priority)@, new@, idx); }"""},
         },
-        "anchors": [{"after": "for rr in new", "at": "before", "proof": "assert(new@.take(0) =~= Seq::<ResourceRecord>::empty()); assert(merged(old(priority)@, Seq::<ResourceRecord>::empty()) =~= old(priority)@) by { reveal(Seq::filter); }"}]},
+        "anchors": [{"after": "for rr in new", "at": "before", "proof": "assert(new@.take(0) =~= Seq::<ResourceRecord>::empty()); assert(merged(old(priority)@, Seq::<ResourceRecord>::empty()) =~= old(priority)@) by { reveal(Seq::filter); reveal(merged); }"}]},
     "ResolvedRecord::rrs": {"props": ["C01", "C10"], "contract": "    ensures r@ == resolved_rrs(self),"},
     "From::from": {"props": ["C01", "C09"], "contract": """    ensures
         lsr is Done ==> r == lsr->resolved,
@@ -134,6 +137,18 @@ proof { lemma_merged_step(old(priority)@, new@, idx); }"""},
 
 RESOLVE_LOCAL = {
     "props": ["C01", "C10"],
+    "anchors": [{"after": "prioritising_merge(&mut rrs, rrs_from_cache);", "at": "before", "proof": "let ghost rfc__ = rrs_from_cache@; proof { assert(question.qtype != QueryType::Wildcard ==> rrs@.len() == 0); if rrs@.len() == 0 { lemma_merged_empty(rfc__); assert(rrs@ =~= Seq::<ResourceRecord>::empty()); } }"},
+                {"after": "prioritising_merge(&mut rrs, rrs_from_cache);", "proof": """proof {
+    if question.qtype != QueryType::Wildcard {
+        assert(rrs@ == rfc__);
+        assert(final_cname is Some ==> ends_at(rfc__, final_cname->Some_0));
+    }
+}"""},
+                {"after": "rrs.append(&mut cname_rrs);", "nth": 3, "at": "before", "proof": "let ghost cr__ = cname_rrs@; let ghost r0__ = rrs@;"},
+                {"after": "rrs.append(&mut cname_rrs);", "nth": 3, "proof": "assert(rrs@ == r0__ + cr__); assert(cr__.len() > 0 ==> rrs@.last() == cr__.last());"},
+                {"after": "rrs_from_cache.append(&mut rrs);\n                        final_cname = Some(cname_question.name);", "at": "before", "proof": "let ghost cr__ = rrs@; let ghost r0__ = rrs_from_cache@;"},
+                {"after": "rrs_from_cache.append(&mut rrs);\n                        final_cname = Some(cname_question.name);", "proof": "assert(rrs_from_cache@ == r0__ + cr__); assert(cr__.len() > 0 ==> rrs_from_cache@.last() == cr__.last());"},
+                ],
     "contract": """    requires old(context).wf(),
     ensures
         final(context).question_stack@ == old(context).question_stack@, same_env(old(context), final(context)), // [C10:question_stack_restored]
@@ -157,6 +172,9 @@ RESOLVE_LOCAL = {
         guards_pass(old(context), *question) && r is Ok && r->Ok_0 is Done && r->Ok_0->resolved is AuthoritativeNameError ==>
             zr(old(context), *question) is Some && zone_soa_rr(zr(old(context), *question)->Some_0.0) is Some
             && (zr(old(context), *question)->Some_0.1 is NameError || zr(old(context), *question)->Some_0.1 is CNAME), // [C01:name_error_only_from_an_authoritative_zone]
+        // C10: a partial chain ends with the alias whose target is the question to continue with (nothing is followed twice, nothing skipped)
+        question.qtype != QueryType::Wildcard && r is Ok && r->Ok_0 is CNAME ==> ends_at(r->Ok_0->CNAME_rrs@, r->Ok_0->cname_question.name)
+            && r->Ok_0->cname_question.qtype == question.qtype, // [C10:continuation_is_the_target_of_the_last_alias]
         // C10: the chain starts with the zone's CNAME record for the question name
         guards_pass(old(context), *question) && zr(old(context), *question) is Some && zr(old(context), *question)->Some_0.1 is CNAME ==>
             r is Ok && result_rrs(r->Ok_0).len() > 0 && result_rrs(r->Ok_0)[0] == zr(old(context), *question)->Some_0.1->rr, // [C10:chain_starts_at_the_question_name]
@@ -165,6 +183,22 @@ RESOLVE_LOCAL = {
 }
 
 SPEC2 = """
+pub open spec fn ends_at(rrs: Seq<ResourceRecord>, name: DomainName) -> bool {
+    rrs.len() > 0 && rrs.last().rtype_with_data is CNAME && rrs.last().rtype_with_data->CNAME_cname == name
+}
+pub proof fn lemma_merged_empty(b: Seq<ResourceRecord>)
+    ensures merged(Seq::<ResourceRecord>::empty(), b) == b
+    decreases b.len()
+{
+    reveal(Seq::filter); reveal(merged);
+    let p = |rr: ResourceRecord| !has_key(Seq::<ResourceRecord>::empty(), key_of(rr));
+    if b.len() > 0 {
+        lemma_merged_empty(b.drop_last());
+        assert(Seq::<ResourceRecord>::empty() + b.drop_last().filter(p) =~= b.drop_last().filter(p));
+        assert(b.drop_last().push(b.last()) =~= b);
+    }
+    assert(Seq::<ResourceRecord>::empty() + b.filter(p) =~= b.filter(p));
+}
 spec fn zr<CT>(c: &Context<'_, CT>, q: Question) -> Option<(Zone, ZoneResult)> { zones_resolve(*c.zones, q.name, q.qtype) }
 spec fn guards_pass<CT>(c: &Context<'_, CT>, q: Question) -> bool { c.question_stack@.len() < ctx_limit(c) && !c.question_stack@.contains(q) }
 pub broadcast axiom fn axiom_key_pair_model() ensures #[trigger] obeys_key_model::<(DomainName, RecordType)>();
@@ -173,7 +207,7 @@ pub proof fn lemma_merged_step(a: Seq<ResourceRecord>, b: Seq<ResourceRecord>, i
     requires 0 <= i < b.len()
     ensures merged(a, b.take(i + 1)) == (if has_key(a, key_of(b[i])) { merged(a, b.take(i)) } else { merged(a, b.take(i)).push(b[i]) })
 {
-    reveal(Seq::filter);
+    reveal(Seq::filter); reveal(merged);
     assert(b.take(i + 1).drop_last() =~= b.take(i));
     assert(b.take(i + 1).last() == b[i]);
     let p = |rr: ResourceRecord| !has_key(a, key_of(rr));
